@@ -193,6 +193,20 @@ def run(tier, seed, replay=None):
         finally:
             w.close()
     K.validate_family(ctx, PID, susp, "line4", hdr5, "suspended-admission", NONTRIVIAL | {"JoinResume"}, suspend_join=True)
+    # data messages of the tunnel community itself, naming every circuit id, arriving from outside at the exits' sockets
+    nest = []
+    for i, goals in enumerate([(2, 1)] if tier == "quick" else [(2, 1), (1, 1), (3, 2), (2, 2)]):
+        w = R.world("line4", seed * 10 + 40 + i)
+        try:
+            gone = K.guarded(w, K.nested_walk, w, goals)
+            tr = {"events": w.events, "topology": "line4", "seed": seed, "profile": "nested-from-outside %s" % (goals,),
+                  "aborted": gone}
+            K.check_escapes(ctx, w, tr, "nested-from-outside")
+            nest.append(tr)
+            hdr6 = w.header()
+        finally:
+            w.close()
+    K.validate_family(ctx, PID, nest, "line4", hdr6, "nested-from-outside", NONTRIVIAL | {"OutsideNested"})
     cross = []
     for pick in range(4 if tier == "quick" else 8):
         w = R.world("line4", seed * 10 + 50 + pick)
